@@ -88,12 +88,15 @@ type Bias struct {
 	FailWeight int // percent of attempts that fail trailers-only with a code
 	SmallMax   bool
 	BufLimit   int // percent of RPCs with an explicit MaxRetryRPCBufferSize
+	// ShortDeadline draws deadlines of 1-5 s so that backoffs often cross them.
+	ShortDeadline bool
 }
 
 // Biases of the case families.
 var (
 	BiasMixed    = Bias{Throttle: 35, Unary: 35, MinRPC: 1, MaxRPC: 4, Pushback: 25, FailWeight: 48, BufLimit: 35}
 	BiasTiming   = Bias{Throttle: 15, Unary: 70, MinRPC: 1, MaxRPC: 3, Pushback: 40, FailWeight: 72, BufLimit: 5}
+	BiasUnary    = Bias{Throttle: 10, Unary: 100, MinRPC: 1, MaxRPC: 3, Pushback: 35, FailWeight: 75, BufLimit: 5, ShortDeadline: true}
 	BiasThrottle = Bias{Throttle: 100, Unary: 85, MinRPC: 5, MaxRPC: 14, Pushback: 15, FailWeight: 62, SmallMax: true, BufLimit: 5}
 )
 
@@ -152,6 +155,9 @@ func Gen(rng *rand.Rand, b Bias) Scenario {
 
 func genRPC(rng *rand.Rand, b Bias, cfg *Config) RPC {
 	r := RPC{BufLimit: -1, DeadlineMs: pick(rng, 1000, 2000, 5000, 5000, 12000, 20000, 60000)}
+	if b.ShortDeadline {
+		r.DeadlineMs = pick(rng, 1000, 1500, 2000, 3000, 5000)
+	}
 	var sizes []int
 	switch x := rng.Intn(100); {
 	case x < b.Unary:
